@@ -5,14 +5,16 @@
 STREAMS=${1:-2}
 cd /verif
 OUT=/var/tmp/avel_all_seeded.txt
-rm -f $OUT
+[ "${RESUME:-0}" = 1 ] || rm -f $OUT          # RESUME=1: keep the results so far, run only what is missing
+touch $OUT
 ls seeded | grep -v DETECTION > /var/tmp/avel_all_seeded.list
 python3 - <<'PY'
 import json
 keep=[]
 for n in open('/var/tmp/avel_all_seeded.list').read().split():
     m=json.load(open('/verif/seeded/%s/meta.json'%n))
-    if m.get('status')!='superseded': keep.append(n)
+    done=set(l.split()[0] for l in open('/var/tmp/avel_all_seeded.txt') if ' rc=' in l)
+    if m.get('status')!='superseded' and n not in done: keep.append(n)
 open('/var/tmp/avel_all_seeded.list','w').write('\n'.join(keep)+'\n')
 PY
 split -n r/$STREAMS /var/tmp/avel_all_seeded.list /var/tmp/avel_all_seeded.part_
